@@ -369,5 +369,5 @@ NOT_APPLICABLE = {
     "C11": "the statement relates every slot to the result of a single-path get for the path that was added i-th: that needs a specification of the path trie (PointerTree = nested std HashMap<FastStr,_> built through the entry API, per-node `order` lists), which Verus cannot take (no spec for std HashMap entry API) and CBMC cannot finish (SipHash HashMap + parser); with the trie opaque, what a contract CAN state about the real get_many walkers — every filled slot is the exact span of a well-formed value, the remain counter is exact, never underflows, a finished walker has validated its container — is proved in unit getmany and claimed under C14 / C01 (findings F11-F13); get_by_schema_rec works on the mutable DOM (C15 obstacles)",
     "C15": "Value is a tagged union of raw pointers/Arc<Vec>/Arc<AHashMap> with copy-on-write promotion and ref_cast facades; cannot be specified in Verus without replacing it by a model; bounded Kani histories hit the 6-38 GB class",
     "C16": "a whole-history property (every clone / take / drop order, from any thread) over a manual reference count kept through raw Arc pointers in tagged nodes (Arc::from_raw / increment_strong_count, bumpalo arena, ManuallyDrop unions, a thread-local node buffer): Kani has no threads and cannot compile the thread_local used by the parser (internal compiler error), a bounded single-thread history over real parsed Values does not finish in CBMC (DOM parse + bumpalo + Arc), Verus has no permission model for this raw-pointer code without replacing it by a model; the packing/tag kernels it depends on (Meta::pack_*/unpack_*, root tags) are proved under C03",
-    "C19": "quantifies over programs (Serialize/Deserialize impls) and relates two serde back ends plus AHashMap-backed equality; same obstacles as C04 and C15",
+    "C19": "quantifies over programs (Serialize/Deserialize impls) and relates two serde back ends plus AHashMap-backed equality; same obstacles as C15 (C04 is claimed per entry point only)",
 }
